@@ -461,6 +461,64 @@ def norm_family(which):
         cases.append(('LayerNorm mask normalise', gotm, wantm))
       finally:
         LN._compute_stats, NN_._compute_stats = saved
+    elif which == 3:    # GroupNorm / InstanceNorm given the statistics
+      stub_l, stub_n = StatsStub(), StatsStub()
+      saved = (LN._compute_stats, NN_._compute_stats)
+      LN._compute_stats, NN_._compute_stats = stub_l, stub_n
+      try:
+        N, Lx, C = 1, 2, 4
+        x = A.sym('x', (N, Lx, C))
+        sc, bi = A.sym('s', (C,)), A.sym('b', (C,))
+        for groups, gsize in ((2, None), (None, 1), (1, None), (4, None)):
+          G = groups if groups is not None else C // gsize
+          gs = C // G
+          gn = nn.GroupNorm(num_groups=groups, group_size=gsize, epsilon=eps)
+          got = gn.apply({'params': {'scale': sc, 'bias': bi}}, x)
+          c = stub_l.calls[-1]
+          # the statistics must be taken over (length, group members) of x viewed
+          # as [N, L, G, group_size]
+          xg = c['x']
+          ok = xg.shape == (N, Lx, G, gs) and c['axes'] == (1, 3) and c['use_mean']
+          if ok:
+            for n_, l_, g_, j_ in idxs((N, Lx, G, gs)):
+              if xg.at((n_, l_, g_, j_)) is not x.at((n_, l_, g_ * gs + j_)):
+                ok = False
+          if not ok:
+            return dict(status='sat', cex=dict(case='GroupNorm grouping'),
+                        detail='statistics requested over the wrong grouping: '
+                               'shape %r axes %r' % (xg.shape, c['axes']))
+          want = []
+          for n_, l_, ch in idxs((N, Lx, C)):
+            mu, var = c['mu'].at((n_, ch // gs)), c['var'].at((n_, ch // gs))
+            r = symnp.LAX.rsqrt(A([var + eps], ())).data[0]
+            want.append((x.at((n_, l_, ch)) - mu) * r * sc.at((ch,)) + bi.at((ch,)))
+          cases.append(('GroupNorm groups=%r size=%r' % (groups, gsize), got,
+                        A(want, (N, Lx, C))))
+          ng = nnx.GroupNorm(C, num_groups=groups, group_size=gsize, epsilon=eps,
+                             rngs=nnx.Rngs(0))
+          ng.scale.value, ng.bias.value = sc, bi
+          gn_out = ng(x)
+          cn = stub_n.calls[-1]
+          if cn['x'].shape != xg.shape or cn['axes'] != c['axes']:
+            return dict(status='sat', cex=dict(case='nnx.GroupNorm grouping'))
+          wn = []
+          for n_, l_, ch in idxs((N, Lx, C)):
+            mu, var = cn['mu'].at((n_, ch // gs)), cn['var'].at((n_, ch // gs))
+            r = symnp.LAX.rsqrt(A([var + eps], ())).data[0]
+            wn.append((x.at((n_, l_, ch)) - mu) * r * sc.at((ch,)) + bi.at((ch,)))
+          cases.append(('nnx.GroupNorm groups=%r size=%r' % (groups, gsize), gn_out,
+                        A(wn, (N, Lx, C))))
+        inn = nn.InstanceNorm(epsilon=eps)
+        got = inn.apply({'params': {'scale': sc, 'bias': bi}}, x)
+        c = stub_l.calls[-1]
+        if c['axes'] != (1,) or c['x'] is not x:
+          return dict(status='sat', cex=dict(case='InstanceNorm axes'),
+                      detail='InstanceNorm must reduce the spatial axes only')
+        want, _ = ref_norm(x, (1,), eps, sc, bi, True, None, (-1,),
+                           given=(c['mu'], c['var']))
+        cases.append(('InstanceNorm', got, want))
+      finally:
+        LN._compute_stats, NN_._compute_stats = saved
     else:               # BatchNorm given the batch statistics (lemma: which==0)
       stub_l, stub_n = StatsStub(), StatsStub()
       saved = (LN._compute_stats, NN_._compute_stats)
@@ -609,6 +667,51 @@ def conv_family(pad_i):
   return _prove(cases, t0)
 
 
+def conv2d_family(which):
+  """2-D convolution (stride (1,2), SAME / VALID / CIRCULAR), Linen and NNX"""
+  t0 = time.time()
+  cases = []
+  H, W, C, F, KH, KW = 3, 4, 1, 2, 2, 3
+  with SymEnv():
+    for pad, strides in (('VALID', (1, 1)), ('SAME', (1, 1)), ('CIRCULAR', (1, 1)),
+                         ('VALID', (1, 2)), ('SAME', (2, 1))):
+      x = A.sym('x', (1, H, W, C))
+      k = A.sym('k', (KH, KW, C, F))
+      b = A.sym('b', (F,))
+      conv = nn.Conv(F, (KH, KW), strides=strides, padding=pad,
+                     conv_general_dilated=symnp.LAX.conv_general_dilated)
+      got = conv.apply({'params': {'kernel': k, 'bias': b}}, x)
+
+      def pads(size, kk, st):
+        if pad == 'VALID':
+          return 0, 0
+        if pad == 'CIRCULAR':
+          return (kk - 1) // 2, kk // 2
+        out = -(-size // st)
+        tot = max((out - 1) * st + kk - size, 0)
+        return tot // 2, tot - tot // 2
+      (lh, hh), (lw, hw) = pads(H, KH, strides[0]), pads(W, KW, strides[1])
+      OH = (H + lh + hh - KH) // strides[0] + 1
+      OW = (W + lw + hw - KW) // strides[1] + 1
+      want = []
+      for oh, ow, f in idxs((OH, OW, F)):
+        acc = S(0)
+        for dh, dw, c in idxs((KH, KW, C)):
+          ih, iw = oh * strides[0] + dh - lh, ow * strides[1] + dw - lw
+          if pad == 'CIRCULAR':
+            ih, iw = ih % H, iw % W
+          if 0 <= ih < H and 0 <= iw < W:
+            acc = acc + x.at((0, ih, iw, c)) * k.at((dh, dw, c, f))
+        want.append(acc + b.at((f,)))
+      label = 'Conv2D %s strides=%r' % (pad, strides)
+      cases.append((label, got, A(want, (1, OH, OW, F))))
+      nc = nnx.Conv(C, F, (KH, KW), strides=strides, padding=pad, rngs=nnx.Rngs(0),
+                    conv_general_dilated=symnp.LAX.conv_general_dilated)
+      nc.kernel.value, nc.bias.value = k, b
+      cases.append(('nnx.' + label, nc(x), got))
+  return _prove(cases, t0)
+
+
 def shim_validation(seed):
   t0 = time.time()
   fails = symnp.validate(seed, 2)
@@ -696,7 +799,8 @@ def obligations(tier):
                   split=('which',), timeout=900, funcs=F1,
                   bounds='shapes <= 2x2x3, batch dims 0..2, bias on/off'))
   for w, nm in enumerate(['norm_statistics_lemma', 'batch_norm',
-                          'layer_rms_norm_given_statistics']):
+                          'layer_rms_norm_given_statistics',
+                          'group_instance_norm_given_statistics']):
     obs.append(Ob('formula_' + nm, _fam('norm_family'), dict(which=I(w, w)), kind='smt', replay=replay_family,
                   split=('which',), timeout=900, funcs=F2,
                   bounds='shapes <= 2x2x2 / 3x2, symbolic epsilon>0 and momentum'))
@@ -712,4 +816,8 @@ def obligations(tier):
   obs.append(Ob('control_wrong_formula_is_refuted', control_wrong_formula,
                 dict(which=I(0, 0)), kind='smt', split=('which',), timeout=300,
                 expect='refute', replay=replay_control))
+  obs.append(Ob('formula_conv_2d', _fam('conv2d_family'), dict(which=I(0, 0)),
+                kind='smt', replay=replay_family, split=('which',), timeout=900,
+                funcs=F4, bounds='3x4 image, 2x3 kernel, strides (1,1),(1,2),(2,1), '
+                                 'SAME / VALID / CIRCULAR'))
   return obs
